@@ -173,16 +173,25 @@ func (c *cursorManager) GetCursor(ctx context.Context, streamName, cursorID stri
 		c.mu.RUnlock()
 	}
 
-	// Find the latest offset for the cursor in the log.
+	// Find the latest offset for the cursor in the log. Hold the write lock
+	// while reading the log and filling the cache. Otherwise, a SetCursor which
+	// completes in between would have its cached offset overwritten by the
+	// older one read from the log, and this stale offset would be served from
+	// then on.
+	c.mu.Lock()
+	defer c.mu.Unlock()
+	if !c.disableCache {
+		if offset, ok := c.cache.Get(string(cursorKey)); ok {
+			return offset.(int64), nil
+		}
+	}
 	offset, err := c.getLatestCursorOffset(ctx, cursorKey, partition)
 	if err != nil {
 		return 0, status.New(codes.Internal, err.Error())
 	}
 
 	// Cache the offset.
-	c.mu.Lock()
 	c.cache.Add(string(cursorKey), offset)
-	c.mu.Unlock()
 
 	return offset, nil
 }
